@@ -137,6 +137,13 @@ func genBWorld(r *Rng, faulty bool) (*BWorld, []BOp) {
 			}
 			reg.Versions = append(reg.Versions, v)
 		}
+		// now and then the listing also holds a version that differs from a listed one in build metadata only
+		// (seed C08-g: tables keyed by the version without its build metadata)
+		if len(reg.Versions) > 0 && r.Chance(15) {
+			if t := tiedPartner(r, reg); t != "" {
+				reg.Versions = append(reg.Versions, BVer{Ver: t})
+			}
+		}
 		w.Regs = append(w.Regs, reg)
 		for _, v := range reg.Versions {
 			s := BSrc{Reg: reg.Addr, Ver: v.Ver, Pkg: w.Pkgs[r.Intn(npk)].Addr, Sub: r.Pick([]string{"", "", "m", "m/n"})}
@@ -231,7 +238,88 @@ func genBWorld(r *Rng, faulty bool) (*BWorld, []BOp) {
 	if len(ops) == 0 {
 		ops = append(ops, BOp{Kind: "ar", Pkg: w.Pkgs[0].Addr, Finder: 0})
 	}
+	// a registry package that lists two versions differing in build metadata only: often BOTH are pinned in
+	// the same build (AddFinalRegistrySource, or AddRegistrySource with an exact set), so that the bundle
+	// has to keep two entries apart that compare as equal in precedence
+	for _, reg := range w.Regs {
+		a, b := tiedPair(reg)
+		if a == "" || reg.Err || !r.Chance(50) {
+			continue
+		}
+		for _, v := range []string{a, b} {
+			if r.Chance(70) {
+				ops = append(ops, BOp{Kind: "af", Pkg: reg.Addr, Sub: r.Pick([]string{"", "k", "m"}), Allowed: v, Finder: r.Intn(2)})
+			} else {
+				ops = append(ops, BOp{Kind: "ag", Pkg: reg.Addr, Sub: r.Pick([]string{"", "k", "m"}), Allowed: "only:" + v, Finder: r.Intn(2)})
+			}
+		}
+	}
 	return w, ops
+}
+
+// sameButMeta: two different version strings of equal precedence (they differ in build metadata only)
+func sameButMeta(a, b string) bool {
+	return a != b && versions.MustParseVersion(a).Same(versions.MustParseVersion(b))
+}
+
+// tiedPair: two listed versions of reg that differ in build metadata only ("" if there are none)
+func tiedPair(reg BReg) (string, string) {
+	for i, x := range reg.Versions {
+		for _, y := range reg.Versions[i+1:] {
+			if sameButMeta(x.Ver, y.Ver) {
+				return x.Ver, y.Ver
+			}
+		}
+	}
+	return "", ""
+}
+
+// tiedPartner: a pool version that differs from a listed version of reg in build metadata only and is not
+// listed itself
+func tiedPartner(r *Rng, reg BReg) string {
+	start := r.Intn(len(bVerPool))
+	for k := range bVerPool {
+		c := bVerPool[(start+k)%len(bVerPool)]
+		listed, tied := false, false
+		for _, v := range reg.Versions {
+			if v.Ver == c {
+				listed = true
+			}
+			if sameButMeta(v.Ver, c) {
+				tied = true
+			}
+		}
+		if tied && !listed {
+			return c
+		}
+	}
+	return ""
+}
+
+// builderCorpus: fixed cases that run with every seed, after the generated ones. Worlds in which two versions
+// of one registry package that differ in build metadata only are both resolved in one build, naming different
+// packages / sub-paths, one of them deprecated (seed C08-g / C13-g).
+func builderCorpus() []*bCase {
+	p0, p1, p2 := bPkgPool[0], bPkgPool[1], bPkgPool[2]
+	reg := canonReg(bRegPool[2])
+	pkgs := []BPkg{{Addr: p0, Content: "c0"}, {Addr: p1, Content: "c1", HasMeta: true, MetaCommit: "00000000000000000000000000000000000000aa", MetaMsg: "fix things"}, {Addr: p2, Content: "c2"}}
+	w1 := &BWorld{Pkgs: pkgs,
+		Regs: []BReg{{Addr: reg, Versions: []BVer{{Ver: "0.9.0", HasDep: true, DepReason: "old", DepLink: "https://example.com/why"}, {Ver: "1.2.3+linux"}, {Ver: "1.2.3+darwin", HasDep: true, DepReason: "security", DepLink: ""}}}},
+		Srcs: []BSrc{{Reg: reg, Ver: "0.9.0", Pkg: p0, Sub: ""}, {Reg: reg, Ver: "1.2.3+linux", Pkg: p1, Sub: ""}, {Reg: reg, Ver: "1.2.3+darwin", Pkg: p2, Sub: "m"}}}
+	// the same listing the other way round, the exact sets given as constraints, one request from a finder
+	w2 := &BWorld{Pkgs: pkgs,
+		Regs: []BReg{{Addr: reg, Versions: []BVer{{Ver: "1.2.3+darwin"}, {Ver: "1.2.3"}, {Ver: "1.2.3+linux", HasDep: true, DepReason: "old", DepLink: "https://example.com/why"}}}},
+		Srcs: []BSrc{{Reg: reg, Ver: "1.2.3+darwin", Pkg: p2, Sub: ""}, {Reg: reg, Ver: "1.2.3", Pkg: p0, Sub: "m"}, {Reg: reg, Ver: "1.2.3+linux", Pkg: p1, Sub: "m/n"}},
+		Deps: []BDep{{Content: "c0", Sub: "", Finder: 0, Decls: []BDecl{{Kind: "g", Pkg: reg, Sub: "", Allowed: "only:1.2.3+linux", Finder: 1}}}}}
+	reg2 := canonReg(bRegPool[0])
+	w3 := &BWorld{Pkgs: pkgs,
+		Regs: []BReg{{Addr: reg2, Versions: []BVer{{Ver: "2.0.0+build.5"}, {Ver: "1.0.0"}, {Ver: "2.0.0"}}}},
+		Srcs: []BSrc{{Reg: reg2, Ver: "2.0.0+build.5", Pkg: p1, Sub: "m"}, {Reg: reg2, Ver: "1.0.0", Pkg: p0, Sub: ""}, {Reg: reg2, Ver: "2.0.0", Pkg: p2, Sub: ""}}}
+	return []*bCase{
+		{World: w1, Ops: []BOp{{Kind: "af", Pkg: reg, Sub: "", Allowed: "1.2.3+linux", Finder: 0}, {Kind: "af", Pkg: reg, Sub: "", Allowed: "1.2.3+darwin", Finder: 0}, {Kind: "af", Pkg: reg, Sub: "k", Allowed: "0.9.0", Finder: 1}}},
+		{World: w2, Ops: []BOp{{Kind: "ag", Pkg: reg, Sub: "k", Allowed: "only:1.2.3+darwin", Finder: 0}, {Kind: "ar", Pkg: p0, Sub: "", Finder: 0}, {Kind: "ag", Pkg: reg, Sub: "", Allowed: "only:1.2.3", Finder: 1}}},
+		{World: w3, Ops: []BOp{{Kind: "af", Pkg: reg2, Sub: "", Allowed: "2.0.0", Finder: 0}, {Kind: "af", Pkg: reg2, Sub: "k", Allowed: "2.0.0+build.5", Finder: 1}}},
+	}
 }
 
 func pickAllowed(r *Rng, faulty bool) string {
@@ -531,7 +619,7 @@ func hasErrorDiag(results []string) bool {
 
 func init() {
 	lanes["builder"] = func(cfg *Config, rep *Report) {
-		rep.Rule = "scripted worlds: 2..5 remote packages (git/https/ssh, with query strings; shared content for coalescing), 0..2 registry packages with 1..4 versions (incl. pre-release, shuffled listing, deprecations), dependency tables per (content, sub-path, finder) with remote / registry / relative edges (cycles, diamonds, self-references arise freely), warnings with valid and invalid file names; about a third of the worlds hold a package whose URL is spelled non-canonically (raw space, '|', non-ASCII letter, quote, '^') and whose addresses are built with MakeRemoteSource from the parsed URL wherever they are added, reported or looked up; in half of the worlds the finders keep one pair of range objects per file name and hand it out with every diagnostic about that file (often one kept warning for most artefacts of a finder); 1..5 Add calls incl. repeats and AddFinalRegistrySource (in failing worlds half of them pin a version the registry does not list: below all, between two, above all, pre-releases); lookups on the bundle returned by Close and on the re-opened one; one third of the worlds contain failing fetches/registry answers/escaping relative paths/error diagnostics; non-trivial = has a registry hop, a relative edge or a repeated Add; distinct by (world, ops)"
+		rep.Rule = "scripted worlds: 2..5 remote packages (git/https/ssh, with query strings; shared content for coalescing), 0..2 registry packages with 1..4 versions (incl. pre-release, shuffled listing, deprecations), dependency tables per (content, sub-path, finder) with remote / registry / relative edges (cycles, diamonds, self-references arise freely), warnings with valid and invalid file names; about a third of the worlds hold a package whose URL is spelled non-canonically (raw space, '|', non-ASCII letter, quote, '^') and whose addresses are built with MakeRemoteSource from the parsed URL wherever they are added, reported or looked up; in half of the worlds the finders keep one pair of range objects per file name and hand it out with every diagnostic about that file (often one kept warning for most artefacts of a finder); 15% of the listings get a version that differs from a listed one in build metadata only, and for half of the listings with such a pair both versions are pinned in the build (AddFinalRegistrySource or an exact allowed set); a fixed corpus of such worlds; every registry request is looked up in the bundle returned by Close and in the re-opened one (location, recorded source address, deprecation note of exactly that version string); 1..5 Add calls incl. repeats and AddFinalRegistrySource (in failing worlds half of them pin a version the registry does not list: below all, between two, above all, pre-releases); lookups on the bundle returned by Close and on the re-opened one; one third of the worlds contain failing fetches/registry answers/escaping relative paths/error diagnostics; non-trivial = has a registry hop, a relative edge or a repeated Add; distinct by (world, ops)"
 		r := NewRng(cfg.Seed)
 		if cfg.Work == "" {
 			rep.Broken = append(rep.Broken, "builder lane needs -work")
@@ -546,6 +634,13 @@ func init() {
 			w, ops := genBWorld(r, i%3 == 2)
 			// every fifth build runs with a tracer that has no Diagnostics callback
 			cases[i] = &bCase{World: w, Ops: ops, NoDiagCb: i%5 == 4}
+		}
+		// the fixed corpus takes extra slots after the generated cases
+		for _, c := range builderCorpus() {
+			cases = append(cases, c)
+			reqs = append(reqs, "")
+			impl = append(impl, "")
+			human = append(human, nil)
 		}
 		// exact replay (-case): the recorded world and Add calls take an extra last slot and run first, alone
 		replayIdx := -1
@@ -837,37 +932,94 @@ func judgeBuild(rep *Report, c *bCase, run *bRun, i int) {
 			fail("C08", "metadata reported for "+a.pkg+" although the fetcher supplied none")
 		}
 	}
-	// C08 + C17: registry sources
+	// C08 + C17: registry sources. For every registry request of the build - package, version string the
+	// request was resolved to, caller's sub-path - the bundle returned by Close and the re-opened one answer
+	// with what the registry said about THAT version: the location is the one of the remote address the
+	// registry named for it joined with the caller's sub-path, the recorded source address and the deprecation
+	// note are that version's own (seed C08-g: versions that differ in build metadata only sharing one entry)
+	tiedBoth := false
+	for i, x := range ref.regReq {
+		for _, y := range ref.regReq[i+1:] {
+			if x.reg == y.reg && sameButMeta(x.ver, y.ver) {
+				tiedBoth = true
+			}
+		}
+	}
+	if tiedBoth {
+		rep.Count("registry:two-versions-differing-in-build-metadata-both-resolved")
+	}
+	type namedBundle struct {
+		b    *sourcebundle.Bundle
+		name string
+	}
+	bundles := []namedBundle{{b, "the bundle returned by Close"}}
+	if reopened != nil {
+		bundles = append(bundles, namedBundle{reopened, "the re-opened bundle"})
+	}
 	for _, rq := range ref.regReq {
 		regSrc := mustRegistry(rq.reg, rq.sub)
 		ver := versions.MustParseVersion(rq.ver)
-		lp, err := b.LocalPathForRegistrySource(regSrc, ver)
-		if err != nil {
-			fail("C17", fmt.Sprintf("registry source %s was not resolved to the newest allowed version %s: %v", regSrc, rq.ver, err))
-			continue
-		}
-		real, ok := b.RegistryPackageSourceAddr(regSrc.Package(), ver)
 		want := ref.resolved[rq.reg+"|"+rq.ver]
-		if !ok || real.Package().String()+"|"+real.SubPath() != want {
-			fail("C17", fmt.Sprintf("source address recorded for %s %s is not the one the registry named", rq.reg, rq.ver))
-			continue
-		}
 		pk, sb, _ := strings.Cut(want, "|")
-		lp2, err := b.LocalPathForRemoteSource(w.remote(pk, strings.Trim(sb+"/"+rq.sub, "/")))
-		if err != nil || lp2 != lp {
-			fail("C08", fmt.Sprintf("registry source %s@%s resolves to %s, the remote address joined with the sub-path to %s", regSrc, rq.ver, lp, lp2))
-		}
-		// deprecation note is the one the registry attached to that version
-		d := b.RegistryPackageVersionDeprecation(regSrc.Package(), ver)
+		wantAddr := w.remote(pk, strings.Trim(sb+"/"+rq.sub, "/"))
+		var wantDep *BVer
 		for _, rg := range w.Regs {
 			if rg.Addr == rq.reg {
-				for _, v := range rg.Versions {
-					if v.Ver == rq.ver {
-						if v.HasDep != (d != nil) || (d != nil && (d.Reason != v.DepReason || d.Link != v.DepLink)) {
-							fail("C17", fmt.Sprintf("deprecation recorded for %s %s is not the registry's", rq.reg, rq.ver))
-						}
+				for k := range rg.Versions {
+					if rg.Versions[k].Ver == rq.ver {
+						wantDep = &rg.Versions[k]
 					}
 				}
+			}
+		}
+		for bi, nb := range bundles {
+			first := bi == 0
+			lp, err := nb.b.LocalPathForRegistrySource(regSrc, ver)
+			if err != nil {
+				if first {
+					fail("C17", fmt.Sprintf("registry source %s was not resolved to the newest allowed version %s: %v", regSrc, rq.ver, err))
+				}
+				fail("C08", fmt.Sprintf("registry source %s, resolved to version %s during the build, cannot be looked up at that version in %s: %v", regSrc, rq.ver, nb.name, err))
+				continue
+			}
+			// the three entry points to the registry lookup agree
+			if lpf, err := nb.b.LocalPathForFinalRegistrySource(regSrc.Versioned(ver)); err != nil || lpf != lp {
+				fail("C08", fmt.Sprintf("LocalPathForFinalRegistrySource(%s) = %q, %v in %s; LocalPathForRegistrySource gives %q", regSrc.Versioned(ver), lpf, err, nb.name, lp))
+			}
+			lp2, err := nb.b.LocalPathForRemoteSource(wantAddr)
+			if err != nil || lp2 != lp {
+				fail("C08", fmt.Sprintf("in %s registry source %s@%s resolves to %s; the registry named %s for version %s, which joined with the caller's sub-path (%s) is at %s (err %v)", nb.name, regSrc, rq.ver, lp, w.remote(pk, sb), rq.ver, wantAddr, lp2, err))
+			} else if subHasDir(wantAddr.SubPath()) {
+				if bts, err := os.ReadFile(filepath.Join(lp, "main.tf")); err != nil || string(bts) != content[pk]+"//"+wantAddr.SubPath() {
+					fail("C08", fmt.Sprintf("in %s registry source %s@%s resolves to %s, which does not hold the content fetched for %s (found %q)", nb.name, regSrc, rq.ver, lp, wantAddr, string(bts)))
+				}
+			}
+			real, ok := nb.b.RegistryPackageSourceAddr(regSrc.Package(), ver)
+			if !ok || real.Package().String()+"|"+real.SubPath() != want {
+				if first {
+					fail("C17", fmt.Sprintf("source address recorded for %s %s is not the one the registry named", rq.reg, rq.ver))
+				}
+				got := "nothing"
+				if ok {
+					got = real.String()
+				}
+				fail("C08", fmt.Sprintf("%s says the registry named %s for %s version %s; it named %s", nb.name, got, rq.reg, rq.ver, w.remote(pk, sb)))
+			}
+			// deprecation note is the one the registry attached to that version
+			d := nb.b.RegistryPackageVersionDeprecation(regSrc.Package(), ver)
+			if wantDep != nil && (wantDep.HasDep != (d != nil) || (d != nil && (d.Reason != wantDep.DepReason || d.Link != wantDep.DepLink))) {
+				if first {
+					fail("C17", fmt.Sprintf("deprecation recorded for %s %s is not the registry's", rq.reg, rq.ver))
+				}
+				got := "none"
+				if d != nil {
+					got = fmt.Sprintf("(%q, %q)", d.Reason, d.Link)
+				}
+				wantS := "none"
+				if wantDep.HasDep {
+					wantS = fmt.Sprintf("(%q, %q)", wantDep.DepReason, wantDep.DepLink)
+				}
+				fail("C08", fmt.Sprintf("%s gives the deprecation note %s for %s version %s; the registry attached %s to that version", nb.name, got, rq.reg, rq.ver, wantS))
 			}
 		}
 	}
